@@ -232,12 +232,23 @@ def run(ctx):
     fmod = p.modules.get("clikit.api.io.flags")
     ctx.require(fmod is not None, "clikit.api.io.flags missing")
     vals = {}
+    def const_int(e):
+        """value of an integer constant expression (literals combined with << | + *), else None"""
+        if isinstance(e, ast.Constant) and isinstance(e.value, int) and not isinstance(e.value, bool):
+            return e.value
+        if isinstance(e, ast.BinOp) and isinstance(e.op, (ast.LShift, ast.BitOr, ast.Add, ast.Mult, ast.Pow)):
+            a, b = const_int(e.left), const_int(e.right)
+            if a is None or b is None or b > 64:
+                return None
+            return {ast.LShift: lambda: a << b, ast.BitOr: lambda: a | b, ast.Add: lambda: a + b, ast.Mult: lambda: a * b, ast.Pow: lambda: a ** b}[type(e.op)]()
+        return None
     for name_ in ("NORMAL", "VERBOSE", "VERY_VERBOSE", "DEBUG"):
         v = fmod.assigns.get(name_)
-        if not (isinstance(v, ast.Constant) and isinstance(v.value, int)):
-            r.fail(fmod, v, "flags.%s not an integer literal" % name_, "flags.%s is not an integer literal" % name_)
+        cv = const_int(v) if v is not None else None
+        if cv is None:
+            r.fail(fmod, v, "flags.%s not an integer constant" % name_, "flags.%s is not an integer constant expression" % name_)
             continue
-        vals[name_] = v.value
+        vals[name_] = cv
     for name_, v in sorted(vals.items()):
         node = fmod.assigns[name_]
         if name_ == "NORMAL":
@@ -353,11 +364,18 @@ def _gate_table(ctx, r, gate):
                 raise AnalysisError("gate has too many paths to tabulate")
             for path in paths:
                 conds = []
+                last = {}
                 for nid in path:
                     n = c.nodes[nid]
                     if n.kind in ("T", "F"):
                         conds.append((norm(n.ast), n.kind == "T", n.ast, n.cond.id))
-                out.append((conds, ret.value, ret))
+                    elif n.kind == "stmt" and isinstance(n.ast, ast.Assign) and len(n.ast.targets) == 1 and isinstance(n.ast.targets[0], ast.Name) and n.ast.targets[0].id != fl:
+                        last[n.ast.targets[0].id] = n.ast.value
+                # a single `return <local>` at the end: the verdict of the path is what was last assigned to the local on it
+                rv = ret.value
+                if isinstance(rv, ast.Name) and rv.id in last and not (isinstance(last[rv.id], ast.Call)):
+                    rv = last[rv.id]
+                out.append((conds, rv, ret))
         return out
 
     rows4 = raw_rows(gate)
